@@ -1904,7 +1904,7 @@ mod pattern_parser {
         associated_comments: parser.comments_store.create_comment_reference(starting_comments),
       };
     };
-    pattern::MatchingPattern::Id(parser.parse_lower_id(), ())
+    pattern::MatchingPattern::Id(parser.parse_lower_id_with_comments(starting_comments), ())
   }
 
   fn parse_tuple_pattern(parser: &mut super::SourceParser) -> pattern::TuplePattern<()> {
